@@ -9,6 +9,7 @@ import (
 	"fmt"
 	"math/rand"
 	"strings"
+	"sync"
 
 	"github.com/la5nta/wl2k-go/fbb"
 
@@ -267,6 +268,39 @@ func run(c vrt.Case) vrt.Obs {
 		for i, s := range fixed {
 			exec(&o, s, fmt.Sprintf("fixed-%d", i))
 		}
+		return o
+	}
+	if p.Count > 0 && (p.Index/p.Count)%2 == 1 {
+		// every other batch runs its handshakes from 8 goroutines at once (several sessions of one
+		// program answering challenges at the same moment): each handshake must still get the answer the
+		// algorithm defines for ITS challenge and password
+		const workers = 8
+		parts := make([]vrt.Obs, workers)
+		var wg sync.WaitGroup
+		for g := 0; g < workers; g++ {
+			wg.Add(1)
+			go func() {
+				defer wg.Done()
+				for i := p.Index + g; i < p.Index+p.Count; i += workers {
+					r := vrt.Rand(p.Seed, "c16", i)
+					exec(&parts[g], genScen(r), fmt.Sprintf("s%d", i))
+				}
+			}()
+		}
+		wg.Wait()
+		for _, a := range parts {
+			o.Evals += a.Evals
+			o.Sigs = append(o.Sigs, a.Sigs...)
+			o.Violations = append(o.Violations, a.Violations...)
+			o.Inconclusive = append(o.Inconclusive, a.Inconclusive...)
+			for k, v := range a.Counters {
+				o.Count(k, v)
+			}
+			if a.Sample != nil {
+				o.Sample = a.Sample
+			}
+		}
+		o.Count("handshakes_run_concurrently", int64(p.Count))
 		return o
 	}
 	for i := p.Index; i < p.Index+p.Count; i++ {
